@@ -172,6 +172,10 @@ func TestVerif_C16_Tamper(t *testing.T) {
 				return
 			}
 		}
+		if j.field.Name == "tag" || j.field.Name == "iv" {
+			// recorded, not judged: RFC 7518 §5.2 gives tag lengths 16/24/32 for the three CBC-HS encryptions, 16 for GCM
+			m.Count(fmt.Sprintf("jwe_field_len/%s/%s=%d", o.enc, j.field.Name, len(orig)), 1)
+		}
 		if len(orig) == 0 {
 			m.Count("jwe_empty_fields/"+j.field.Name, 1) // dir and ECDH-ES carry no encrypted key
 			return
@@ -237,5 +241,4 @@ func TestVerif_C16_Tamper(t *testing.T) {
 			}
 		}
 	})
-	_ = fmt.Sprint
 }
